@@ -76,15 +76,27 @@ impl Write for UdpStream {
 
 impl AsyncRead for UdpStream {
     fn poll_read(
-        self: Pin<&mut Self>,
+        mut self: Pin<&mut Self>,
         cx: &mut Context<'_>,
         buf: &mut ReadBuf<'_>,
     ) -> Poll<Result<(), std::io::Error>> {
-        match self.inner.poll_recv(cx, buf) {
-            Poll::Ready(Ok(_n)) => Poll::Ready(Ok(())),
-            Poll::Ready(Err(e)) => Poll::Ready(Err(e)),
-            Poll::Pending => Poll::Pending,
+        // lets clear out our internal buffer first
+        if self.buffer.is_empty() {
+            // Receive into a buffer that always fits a whole datagram: anything that does not
+            // fit into the buffer handed to recv is discarded by the socket, and we cannot
+            // guarantee that the caller has the space we require.
+            let mut rx_bytes = [0u8; crate::MAX_SIZE_PACKET];
+            let mut rx = ReadBuf::new(&mut rx_bytes);
+            match self.inner.poll_recv(cx, &mut rx) {
+                Poll::Ready(Ok(())) => self.buffer.extend_from_slice(rx.filled()),
+                Poll::Ready(Err(e)) => return Poll::Ready(Err(e)),
+                Poll::Pending => return Poll::Pending,
+            }
         }
+
+        let to_copy = buf.remaining().min(self.buffer.len());
+        buf.put_slice(&self.buffer.copy_to_bytes(to_copy));
+        Poll::Ready(Ok(()))
     }
 }
 
